@@ -13,14 +13,13 @@ Lemma publish_ok : forall g d n c,
   (forall t, tmps g t = None) ->
   forallb (ref_ok g) (refs c) = true ->
   (st g (P d n) = Fresh \/ (P d n = PTR /\ st g PTR <> Dead)) ->
-  (forall q c0 b, st g q = Linked c0 b -> b = true) ->
   exists g', checks g (publish_meta (P d n) c) = Some g'
     /\ (forall t, tmps g' t = None)
     /\ st g' (P d n) = Linked c true
-    /\ (forall x, x <> P d n -> st g' x = st g x)
+    /\ (forall x, x <> P d n -> (forall c0, st g x <> Linked c0 false) -> st g' x = st g x)
     /\ (forall x, refd g' x = refd g x || existsb (path_eqb x) (refs c)).
 Proof.
-  intros g d n c Ht Hr Hq Hb.
+  intros g d n c Ht Hr Hq.
   unfold publish_meta, gen_write_file. cbn [tmp_of dir_of checks].
   cbn [check]. rewrite Ht. cbn [checks check tmps]. rewrite upd_t_same. cbn [checks check tmps app].
   rewrite upd_t_same. cbn [checks check tmps st refd]. rewrite upd_t_same.
@@ -33,8 +32,8 @@ Proof.
   eexists. split; [reflexivity|]. cbn [tmps st refd]. repeat split.
   - intro t. unfold upd_t. destruct (path_eqb t (T d n)); auto.
   - rewrite N.eqb_refl. now rewrite upd_s_same.
-  - intros x Hx. rewrite upd_s_other by auto. destruct (dir_of x =? d); auto.
-    destruct (st g x) as [|c0 b|] eqn:E; auto. now rewrite (Hb _ _ _ E).
+  - intros x Hx Hnf. rewrite upd_s_other by auto. destruct (dir_of x =? d); auto.
+    destruct (st g x) as [|c0 b|] eqn:E; auto. destruct b; auto. elim (Hnf c0). reflexivity.
 Qed.
 
 (* ---------------------------------------------------------------- the ghost between publishes *)
@@ -55,9 +54,33 @@ Record G (used : list path) (F : list pubfile) (M : list path) (g : ghost) : Pro
   g_marks : forall m, In m M ->
       (exists c, st g m = Linked c true) /\ name_ok m = true /\ refd g m = false /\ ~ In m (map pf_path F);
   g_refd : forall r, refd g r = true -> In r (map pf_path F);
-  g_true : forall q c b, st g q = Linked c b -> b = true;
+  g_ptr_true : forall c b, st g PTR = Linked c b -> b = true;
   g_ptr : st g PTR <> Dead
 }.
+(* Names outside F, M and the pointer are unconstrained once used: a file left behind by a publish whose
+   DIRECTORY fsync failed stays linked, its entry not (yet) durable, referenced by nothing. *)
+
+Definition settled (s : pstate) : Prop := s = Fresh \/ (exists c0, s = Linked c0 true) \/ s = Dead.
+
+Lemma settled_keep : forall (g g' : ghost) y,
+  (forall x, x <> y -> (forall c0, st g x <> Linked c0 false) -> st g' x = st g x) ->
+  forall x, x <> y -> settled (st g x) -> st g' x = st g x.
+Proof.
+  intros g g' y S2 x Hx Hs. apply S2; auto. intros c0 E.
+  destruct Hs as [Hs|[[c1 Hs]|Hs]]; rewrite Hs in E; discriminate.
+Qed.
+
+Lemma ptr_settled : forall used F M g, G used F M g -> settled (st g PTR).
+Proof.
+  intros used F M g H. unfold settled. destruct (st g PTR) as [|c1 b1|] eqn:E; auto.
+  right. left. exists c1. now rewrite (g_ptr_true _ _ _ _ H _ _ E).
+Qed.
+
+Lemma G_weaken : forall used F M g x, G used F M g -> G (x :: used) F M g.
+Proof.
+  intros used F M g x H. destruct H. constructor; auto.
+  intros q Hq Hn. apply g_fresh0; auto. intro. apply Hn. now right.
+Qed.
 
 Lemma G_init : G [] [] [] g0.
 Proof. constructor; simpl; intros; try discriminate; try tauto; auto. Qed.
@@ -80,27 +103,29 @@ Proof.
   intros used F M g p c H Hn Hu Hr. destruct (name_ok_spec _ Hn) as [Hf Hp].
   destruct p as [d n|]; [|discriminate].
   assert (Hfr : st g (P d n) = Fresh) by (apply (g_fresh _ _ _ _ H); auto).
-  destruct (publish_ok g d n c (g_tmps _ _ _ _ H) (refs_ok_of_G _ _ _ _ _ H Hr) (or_introl Hfr) (g_true _ _ _ _ H))
+  destruct (publish_ok g d n c (g_tmps _ _ _ _ H) (refs_ok_of_G _ _ _ _ _ H Hr) (or_introl Hfr))
     as [g' [Hc [T1 [S1 [S2 R1]]]]].
+  pose proof (settled_keep g g' _ S2) as K.
   exists g'. split; auto. constructor; auto.
-  - intros q Hq Hnin. rewrite S2; [apply (g_fresh _ _ _ _ H); auto; intro; apply Hnin; now right|].
-    intro E. apply Hnin. now left.
+  - intros q Hq Hnin.
+    assert (Hfq : st g q = Fresh) by (apply (g_fresh _ _ _ _ H); auto; intro; apply Hnin; now right).
+    rewrite K; auto; [intro E; apply Hnin; now left|left; auto].
   - intros f [<-|Hin]; simpl; [auto|].
-    destruct (g_files _ _ _ _ H f Hin) as [A B]. split; auto. rewrite S2; auto. intro E. rewrite E in A. congruence.
+    destruct (g_files _ _ _ _ H f Hin) as [A B]. split; auto.
+    assert (Hne : pf_path f <> P d n) by (intro E; rewrite E in A; congruence).
+    rewrite (K _ Hne); auto. right. left. eauto.
   - intros m Hm. destruct (g_marks _ _ _ _ H m Hm) as [[c0 A] [B [C D]]].
     assert (Hne : m <> P d n) by (intro E; rewrite E in A; congruence).
     repeat split; auto.
-    + exists c0. rewrite S2; auto.
+    + exists c0. rewrite (K _ Hne); auto. right. left. eauto.
     + rewrite R1, C. simpl. destruct (existsb (path_eqb m) (refs c)) eqn:E; auto.
       apply existsb_eqb_In in E. elim D. auto.
     + simpl. intros [E|E]; auto.
   - intros r Hrf. rewrite R1 in Hrf. apply orb_true_iff in Hrf as [Hrf|Hrf].
     + right. apply (g_refd _ _ _ _ H); auto.
     + apply existsb_eqb_In in Hrf. right. auto.
-  - intros q c0 b Hq. destruct (path_eq_dec q (P d n)) as [->|Hne].
-    + rewrite S1 in Hq. congruence.
-    + rewrite S2 in Hq by auto. eapply (g_true _ _ _ _ H); eauto.
-  - rewrite S2 by auto. apply (g_ptr _ _ _ _ H).
+  - intros c0 b Hq. rewrite (K PTR) in Hq; [eapply (g_ptr_true _ _ _ _ H); eauto|auto|eapply ptr_settled; eauto].
+  - rewrite (K PTR); [apply (g_ptr _ _ _ _ H)|auto|eapply ptr_settled; eauto].
 Qed.
 
 Lemma pub_marker : forall used F M g p c, G used F M g ->
@@ -111,15 +136,19 @@ Proof.
   destruct p as [d n|]; [|discriminate].
   assert (Hfr : st g (P d n) = Fresh) by (apply (g_fresh _ _ _ _ H); auto).
   assert (Hro : forallb (ref_ok g) (refs c) = true) by (rewrite Hr; reflexivity).
-  destruct (publish_ok g d n c (g_tmps _ _ _ _ H) Hro (or_introl Hfr) (g_true _ _ _ _ H))
+  destruct (publish_ok g d n c (g_tmps _ _ _ _ H) Hro (or_introl Hfr))
     as [g' [Hc [T1 [S1 [S2 R1]]]]].
+  pose proof (settled_keep g g' _ S2) as K.
   assert (R2 : forall x, refd g' x = refd g x).
   { intro x. rewrite R1, Hr. simpl. apply orb_false_r. }
-  exists g'. split; auto. split; [|apply S2; auto]. constructor; auto.
-  - intros q Hq Hnin. rewrite S2; [apply (g_fresh _ _ _ _ H); auto; intro; apply Hnin; now right|].
-    intro E. apply Hnin. now left.
-  - intros f Hin. destruct (g_files _ _ _ _ H f Hin) as [A B]. split; auto. rewrite S2; auto.
-    intro E. rewrite E in A. congruence.
+  assert (KP : st g' PTR = st g PTR) by (apply K; [auto|eapply ptr_settled; eauto]).
+  exists g'. split; auto. split; [|exact KP]. constructor; auto.
+  - intros q Hq Hnin.
+    assert (Hfq : st g q = Fresh) by (apply (g_fresh _ _ _ _ H); auto; intro; apply Hnin; now right).
+    rewrite K; auto; [intro E; apply Hnin; now left|left; auto].
+  - intros f Hin. destruct (g_files _ _ _ _ H f Hin) as [A B]. split; auto.
+    assert (Hne : pf_path f <> P d n) by (intro E; rewrite E in A; congruence).
+    rewrite (K _ Hne); auto. right. left. eauto.
   - intros m [<-|Hm].
     + repeat split; eauto.
       * rewrite R2. destruct (refd g (P d n)) eqn:E; auto.
@@ -129,12 +158,10 @@ Proof.
         destruct (g_files _ _ _ _ H f E2) as [A _]. rewrite E1 in A. congruence.
     + destruct (g_marks _ _ _ _ H m Hm) as [[c0 A] [B [C D]]].
       assert (Hne : m <> P d n) by (intro E; rewrite E in A; congruence).
-      repeat split; auto. * exists c0. rewrite S2; auto. * rewrite R2; auto.
+      repeat split; auto. * exists c0. rewrite (K _ Hne); auto. right. left. eauto. * rewrite R2; auto.
   - intros r Hrf. rewrite R2 in Hrf. apply (g_refd _ _ _ _ H); auto.
-  - intros q c0 b Hq. destruct (path_eq_dec q (P d n)) as [->|Hne].
-    + rewrite S1 in Hq. congruence.
-    + rewrite S2 in Hq by auto. eapply (g_true _ _ _ _ H); eauto.
-  - rewrite S2 by auto. apply (g_ptr _ _ _ _ H).
+  - intros c0 b Hq. rewrite KP in Hq. eapply (g_ptr_true _ _ _ _ H); eauto.
+  - rewrite KP. apply (g_ptr _ _ _ _ H).
 Qed.
 
 Lemma pub_ptr : forall used F M g c, G used F M g ->
@@ -143,23 +170,22 @@ Lemma pub_ptr : forall used F M g c, G used F M g ->
 Proof.
   intros used F M g c H Hr.
   destruct (publish_ok g 0 0 c (g_tmps _ _ _ _ H) (refs_ok_of_G _ _ _ _ _ H Hr)
-              (or_intror (conj eq_refl (g_ptr _ _ _ _ H))) (g_true _ _ _ _ H))
+              (or_intror (conj eq_refl (g_ptr _ _ _ _ H))))
     as [g' [Hc [T1 [S1 [S2 R1]]]]].
+  pose proof (settled_keep g g' _ S2) as K.
   exists g'. split; auto. split; auto. constructor; auto.
-  - intros q Hq Hnin. rewrite S2 by auto. apply (g_fresh _ _ _ _ H); auto.
-  - intros f Hin. destruct (g_files _ _ _ _ H f Hin) as [A B]. split; auto. rewrite S2; auto.
-    apply (name_ok_spec _ B).
+  - intros q Hq Hnin. rewrite K; auto; [apply (g_fresh _ _ _ _ H); auto|left; apply (g_fresh _ _ _ _ H); auto].
+  - intros f Hin. destruct (g_files _ _ _ _ H f Hin) as [A B]. split; auto.
+    rewrite K; auto; [apply (name_ok_spec _ B)|right; left; eauto].
   - intros m Hm. destruct (g_marks _ _ _ _ H m Hm) as [[c0 A] [B [C D]]].
     repeat split; auto.
-    + exists c0. rewrite S2; auto. apply (name_ok_spec _ B).
+    + exists c0. rewrite K; auto; [apply (name_ok_spec _ B)|right; left; eauto].
     + rewrite R1, C. simpl. destruct (existsb (path_eqb m) (refs c)) eqn:E; auto.
       apply existsb_eqb_In in E. elim D. auto.
   - intros r Hrf. rewrite R1 in Hrf. apply orb_true_iff in Hrf as [Hrf|Hrf].
     + apply (g_refd _ _ _ _ H); auto.
     + apply existsb_eqb_In in Hrf. auto.
-  - intros q c0 b Hq. destruct (path_eq_dec q PTR) as [->|Hne].
-    + fold PTR in S1. rewrite S1 in Hq. congruence.
-    + rewrite S2 in Hq by auto. eapply (g_true _ _ _ _ H); eauto.
+  - intros c0 b Hq. fold PTR in S1. rewrite S1 in Hq. congruence.
   - fold PTR in S1. rewrite S1. discriminate.
 Qed.
 
@@ -175,7 +201,7 @@ Proof.
     intro E. apply D. apply in_map_iff. eauto.
   - intros m' Hm'. apply in_remove in Hm' as [Hm' Hne]. destruct (g_marks0 m' Hm') as [[c1 A1] [B1 [C1 D1]]].
     repeat split; auto. exists c1. rewrite upd_s_other; auto.
-  - intros q c1 b Hq. unfold upd_s in Hq. destruct (path_eqb q (P d n)); [discriminate|eauto].
+  - intros c1 b Hq. rewrite upd_s_other in Hq by auto. eauto.
   - rewrite upd_s_other; auto.
 Qed.
 
@@ -485,24 +511,42 @@ Proof.
 Qed.
 
 (* ---------------------------------------------------------------- a whole history *)
-(* a publish that fails at call k < 4 and cleans up leaves the ghost as it was *)
+(* a publish that fails at call k < 4 and cleans up leaves the ghost as it was; one whose directory
+   fsync fails (k = 4) leaves the file linked under its name: used, unreferenced, entry not durable *)
 Lemma G_ext : forall used F M g g', G used F M g ->
   (forall t, tmps g' t = None) -> st g' = st g -> refd g' = refd g -> G used F M g'.
 Proof.
   intros used F M g g' H Ht Hs Hr. destruct H. constructor; rewrite ?Hs, ?Hr; auto.
 Qed.
 
-Lemma failed_ok : forall used F M g d n c k, G used F M g -> (k < 4)%nat ->
-  exists g', checks g (failed_of (publish_meta (P d n) c) (T d n) k) = Some g'
-    /\ G used F M g' /\ st g' PTR = st g PTR.
+Lemma failed_ok : forall used F M g d n c k, G used F M g -> (k < 5)%nat ->
+  name_ok (P d n) = true -> ~ In (P d n) used -> refs c = [] ->
+  exists g', checks g (failed_of (publish_meta (P d n) c) (gen_write_file_on_error (T d n)) (T d n) k) = Some g'
+    /\ G (P d n :: used) F M g' /\ st g' PTR = st g PTR.
 Proof.
-  intros used F M g d n c k H Hk. pose proof (g_tmps _ _ _ _ H) as Ht.
-  unfold failed_of, publish_meta, gen_write_file. cbn [tmp_of dir_of].
-  destruct k as [|[|[|[|k]]]]; try lia; cbn [firstn app checks check]; rewrite ?Ht; cbn [checks check tmps st refd];
+  intros used F M g d n c k H Hk Hn Hu Hrc. pose proof (g_tmps _ _ _ _ H) as Ht.
+  destruct (name_ok_spec _ Hn) as [_ Hp].
+  assert (Hfr : st g (P d n) = Fresh) by (apply (g_fresh _ _ _ _ H); auto).
+  unfold failed_of, publish_meta, gen_write_file, gen_write_file_on_error. cbn [tmp_of dir_of].
+  destruct k as [|[|[|[|[|k]]]]]; try lia; cbn [firstn tmp_live]; rewrite ?path_eqb_refl; cbn [app checks check]; rewrite ?Ht;
+    cbn [checks check tmps st refd];
     rewrite ?upd_t_same; cbn [checks check tmps st refd]; rewrite ?upd_t_same; cbn [checks check tmps st refd];
     rewrite ?upd_t_same; cbn [checks check tmps st refd]; rewrite ?upd_t_same; cbn [checks check tmps st refd].
+  5:{ (* the directory fsync failed: Create, Write, Fsync, Rename were issued *)
+    cbn [app]. rewrite Hrc, Hfr. cbn [refs forallb andb checks]. eexists. split; [reflexivity|]. cbn [st].
+    split; [|apply upd_s_other; auto].
+    destruct H. constructor; cbn [tmps st refd].
+    - intro t. unfold upd_t. repeat (destruct (path_eqb t (T d n)); auto).
+    - intros q Hq Hnin. rewrite upd_s_other; [apply g_fresh0; auto; intro; apply Hnin; now right|intro E; apply Hnin; now left].
+    - intros f Hin. destruct (g_files0 f Hin) as [A B]. split; auto. rewrite upd_s_other; auto. intro E. rewrite E in A. congruence.
+    - intros m Hm. destruct (g_marks0 m Hm) as [[c0 A] [B [C D]]]. repeat split; auto.
+      + exists c0. rewrite upd_s_other; auto. intro E. rewrite E in A. congruence.
+      + rewrite C. reflexivity.
+    - intros r Hr. cbn [existsb] in Hr. rewrite orb_false_r in Hr. auto.
+    - intros c0 b Hq. rewrite upd_s_other in Hq by auto. eauto.
+    - rewrite upd_s_other; auto. }
   all: eexists; split; [reflexivity|]; split; [|reflexivity].
-  all: eapply G_ext; [exact H| |reflexivity|reflexivity].
+  all: apply G_weaken; eapply G_ext; [exact H| |reflexivity|reflexivity].
   all: intro t; cbn [tmps]; unfold upd_t; repeat (destruct (path_eqb t (T d n)); auto).
 Qed.
 
@@ -543,37 +587,54 @@ Proof.
     { unfold no_refs in W5. destruct (refs (pf_content mk)); [reflexivity|discriminate]. }
     assert (Hf_ok : name_ok (pf_path f) = true).
     { apply (forallb_In _ _ _ W1). apply in_or_app. right. right. now left. }
+    assert (Hf_new : ~ In (pf_path f) (pf_path mk :: rev (inter its) ++ usedG)).
+    { assert (Hnd2 : NoDup tail) by (apply NoDup_app_swap in W2; eapply NoDup_app_remove_r'; eauto).
+      intros [E|E].
+      - unfold tail in Hnd2. inversion Hnd2 as [|? ? N1 N2]; subst. apply N1. rewrite E. now left.
+      - apply in_app_or in E as [E|E].
+        + apply in_rev in E. apply inter_perm_in in E.
+          eapply (NoDup_app_disj _ _ W2 (pf_path f)); [apply in_or_app; tauto|right; now left].
+        + eapply Hfresh; [|exact E]. apply in_or_app. right. right. now left. }
+    assert (Hf_refs : refs (pf_content f) = []).
+    { unfold no_refs in W6. destruct (refs (pf_content f)); [reflexivity|discriminate]. }
     destruct (name_ok_spec _ Hf_ok) as [Hff _]. destruct (pf_path f) as [d n|] eqn:Ef; [|discriminate].
-    destruct (failed_ok _ F _ g2 d n (pf_content f) k G2 W7) as [g3 [C3 [G3 S3]]].
+    change (k < 5)%nat in W7.
+    destruct (failed_ok _ F _ g2 d n (pf_content f) k G2 W7 Hf_ok Hf_new Hf_refs) as [g3 [C3 [G3 S3]]].
     destruct (del_markers ((map fl_path its ++ map mk_path its) ++ [pf_path mk]) _ _ _ g3 G3) as [g4 [M4 [C4 [G4 [S4 _]]]]].
     { intros m Hm. apply in_app_or in Hm as [Hm|[<-|[]]]; [|now left].
       right. apply in_or_app. left. rewrite <- in_rev. apply inter_perm_in. apply in_app_or in Hm. tauto. }
     { apply NoDup_app_swap. simpl. constructor.
       - intro E. eapply (NoDup_app_disj _ _ W2 (pf_path mk)); [|now left]. apply in_app_or in E. apply in_or_app. tauto.
       - now apply NoDup_app_swap. }
-    exists g4, (pf_path mk :: rev (inter its) ++ usedG). split; [|split; [|split]].
+    exists g4, (P d n :: pf_path mk :: rev (inter its) ++ usedG). split; [|split; [|split]].
     + unfold fail_trace. rewrite checks_app, C1, checks_app, checks_app, C2.
       change (publish_data (pf_path f) (pf_content f)) with (publish_meta (pf_path f) (pf_content f)).
+      change (gen_data_writer_on_error (tmp_of (pf_path f))) with (gen_write_file_on_error (tmp_of (pf_path f))).
       rewrite Ef. cbn [tmp_of]. rewrite C3.
       rewrite !map_app, !map_map in C4. simpl in C4. rewrite <- app_assoc in C4. exact C4.
     + eapply G_drop_marks; eauto.
-    + intros x [<-|Hx].
+    + intros x [<-|[<-|Hx]].
+      * apply in_or_app. left. apply in_or_app. right. right. now left.
       * apply in_or_app. left. apply in_or_app. right. now left.
       * apply in_app_or in Hx as [Hx|Hx].
         -- apply in_rev in Hx. apply inter_perm_in in Hx. apply in_or_app. left. apply in_or_app. left. apply in_or_app. tauto.
         -- apply in_or_app. right. auto.
     + congruence.
   - (* the marker's publish failed *)
+    assert (Hmk_refs : refs (pf_content mk) = []).
+    { unfold no_refs in W5. destruct (refs (pf_content mk)); [reflexivity|discriminate]. }
     destruct (name_ok_spec _ Hmk_ok) as [Hmf _]. destruct (pf_path mk) as [d n|] eqn:Em; [|discriminate].
-    destruct (failed_ok _ F _ g1 d n (pf_content mk) k G1 W7) as [g3 [C3 [G3 S3]]].
+    change (k < 5)%nat in W7.
+    destruct (failed_ok _ F _ g1 d n (pf_content mk) k G1 W7 Hmk_ok Hmk_new Hmk_refs) as [g3 [C3 [G3 S3]]].
     destruct (del_markers (map fl_path its ++ map mk_path its) _ _ _ g3 G3) as [g4 [M4 [C4 [G4 [S4 _]]]]].
     { intros m Hm. apply in_or_app. left. rewrite <- in_rev. apply inter_perm_in. apply in_app_or in Hm. tauto. }
     { now apply NoDup_app_swap. }
-    exists g4, (rev (inter its) ++ usedG). split; [|split; [|split]].
+    exists g4, (P d n :: rev (inter its) ++ usedG). split; [|split; [|split]].
     + unfold fail_trace. rewrite checks_app, C1, checks_app, Em. cbn [tmp_of]. rewrite C3.
       rewrite app_nil_r. rewrite map_app, !map_map in C4. exact C4.
     + eapply G_drop_marks; eauto.
-    + intros x Hx. apply in_app_or in Hx as [Hx|Hx].
+    + intros x [<-|Hx]; [apply in_or_app; left; apply in_or_app; right; now left|].
+      apply in_app_or in Hx as [Hx|Hx].
       * apply in_rev in Hx. apply inter_perm_in in Hx. apply in_or_app. left. apply in_or_app. left. apply in_or_app. tauto.
       * apply in_or_app. right. auto.
     + congruence.
@@ -861,11 +922,15 @@ Proof.
   - apply Forall_forall. intros c Hc. apply in_map_iff in Hc as [it [<- _]]. intros t E. discriminate.
 Qed.
 
-Lemma failed_no_ptr : forall prog tmp k, Forall no_ptr_rename prog -> Forall no_ptr_rename (failed_of prog tmp k).
+Lemma failed_no_ptr : forall prog oe tmp k, Forall no_ptr_rename prog -> Forall no_ptr_rename oe ->
+  Forall no_ptr_rename (failed_of prog oe tmp k).
 Proof.
-  intros prog tmp k H. unfold failed_of. apply Forall_app. split; [now apply Forall_firstn'|].
-  destruct k; repeat constructor. intros t E. discriminate.
+  intros prog oe tmp k H Ho. unfold failed_of. apply Forall_app. split; [now apply Forall_firstn'|].
+  destruct (tmp_live (firstn k prog) tmp false); [exact Ho|constructor].
 Qed.
+
+Lemma on_error_no_ptr : forall tmp, Forall no_ptr_rename (gen_write_file_on_error tmp).
+Proof. intro tmp. unfold gen_write_file_on_error. repeat constructor. intros t E. discriminate. Qed.
 
 Lemma fail_no_ptr : forall its mk fl k, forallb name_ok (names_of_fail its mk fl) = true ->
   Forall no_ptr_rename (fail_trace its mk fl k).
@@ -877,9 +942,9 @@ Proof.
   unfold fail_trace. apply Forall_app. split; [exact A1|]. apply Forall_app. split.
   - destruct fl as [f|].
     + simpl in H2. apply andb_prop in H2 as [Hf _]. apply name_ok_spec in Hf as [_ Hf].
-      apply Forall_app. split; [now apply publish_no_ptr|]. apply failed_no_ptr.
+      apply Forall_app. split; [now apply publish_no_ptr|]. apply failed_no_ptr; [|apply on_error_no_ptr].
       change (publish_data (pf_path f) (pf_content f)) with (publish_meta (pf_path f) (pf_content f)). now apply publish_no_ptr.
-    + apply failed_no_ptr. now apply publish_no_ptr.
+    + apply failed_no_ptr; [|apply on_error_no_ptr]. now apply publish_no_ptr.
   - apply Forall_app. split; [exact A2|]. apply Forall_app. split; [exact A3|].
     destruct fl; repeat constructor. intros t E. discriminate.
 Qed.
